@@ -111,6 +111,8 @@ func runStandins(prop string, o checkOpts, res *checkResult) {
 		switch {
 		case err == nil && okRe.MatchString(line):
 			rep.Result = "held"
+		case strings.Contains(line, " UNCOVERED "):
+			rep.Result = "not-covered" // the stand-in's own domain no longer matches the code: undecided, fail closed
 		case strings.Contains(line, " FAIL "):
 			rep.Result = "violated"
 		default:
